@@ -66,6 +66,10 @@ def ops_for(spec, rng, others):
         if d0 == "time":
             ops.append(("sel", lambda: spec.sel(time=spec.dataset["time"].values[0]), False))
             ops.append(("interpolate_time", lambda: spec.interpolate({"time": spec.dataset["time"].values[:1]}), False))
+    # onto exactly its own axes (the degenerate target where a shortcut is tempting)
+    ops.append(("interpolate_frequency_own", lambda: spec.interpolate_frequency(f.copy()), False))
+    if "time" in spec.dims and len(spec.dataset["time"].values) >= 1:
+        ops.append(("interpolate_time_own", lambda: spec.interpolate({"time": spec.dataset["time"].values.copy()}), False))
     ops.append(("flatten", lambda: spec.flatten(), False))
     ops.append(("drop_invalid", lambda: spec.drop_invalid() if dims_st else None, False))
     ops.append(("interpolate_frequency", lambda: spec.interpolate_frequency(np.linspace(f[0], f[-1], 5)), False))
